@@ -23,7 +23,11 @@ BASE_CFG = {
     "max_nodes": 6,
     "n_tables": (1, 2),
     "final_order": 0.2,
-    "ops": {"window": 5, "ordered_window": 3, "project": 4, "natural_join": 4, "concat_rows": 3, "extend": 5},
+    "ops": {"window": 5, "ordered_window": 3, "project": 4, "natural_join": 7, "concat_rows": 3, "extend": 5},
+    "force_cols": ["g"],
+    "force_cols_nullable": True,
+    "nullable_join_key_prob": 0.6,
+    "null_rate": 0.35,
 }
 
 
